@@ -468,11 +468,7 @@ func (e *Enc) mergeStates(b *ssa.BasicBlock, live []int, conds []string) *State 
 			}
 		}
 		if ok {
-			sortName := "Int"
-			if strings.HasPrefix(k, "held:") || strings.HasPrefix(k, "b:") {
-				sortName = "Bool"
-			}
-			ns.ghost[k] = e.define("g", sortName, cur)
+			ns.ghost[k] = e.define("g", ghostSort(k), cur)
 		}
 	}
 	return ns
